@@ -687,14 +687,21 @@ def run_instance(inst, tier='quick', seed=0, replay_dir=None, prefix=None, first
                     # cut rule: a clause named 'lemma:...' that has been discharged on this path (from the definitions, the
                     # preconditions and the path condition only) is a hypothesis of the clauses after it and of the definedness
                     # obligations: intermediate facts about ghost values keep the individual queries small
-                    for name, goal in inst.ensures(sp, inp, out[1]):
-                        goal = sp._f(goal)
-                        fl = decide(c, B, name, goal, None, hints + cut, 'ensures')
-                        if fl:
-                            fails.append(fl)
-                        elif name.startswith('lemma:') and rep['obligations'] and rep['obligations'][-1]['name'] == name \
-                                and rep['obligations'][-1]['status'] == 'discharged':
-                            cut.append(goal)
+                    try:
+                        for name, goal in inst.ensures(sp, inp, out[1]):
+                            goal = sp._f(goal)
+                            fl = decide(c, B, name, goal, None, hints + cut, 'ensures')
+                            if fl:
+                                fails.append(fl)
+                            elif name.startswith('lemma:') and rep['obligations'] and rep['obligations'][-1]['name'] == name \
+                                    and rep['obligations'][-1]['status'] == 'discharged':
+                                cut.append(goal)
+                    except (EngineGap, PathLimit):
+                        raise
+                    except Exception as e:  # noqa
+                        # the contract indexes the result by its documented structure; a result of another structure cannot be
+                        # related to it symbolically: undecided here (the run-time evaluation of the same contract reports it)
+                        rep['undecided'].append({'obligation': 'postcondition', 'reason': 'contract not evaluable on this result: %s' % _exc_str(e)[:200]})
                 for (oname, plen, f, where) in (c.oblig if inst.definedness else []):
                     # a lemma proved on the whole path may only support obligations of the whole path
                     fl = decide(c, B, 'defined:%s@%s' % (oname, _short(where)), f, plen, hints + (cut if plen is None or plen >= len(c.path) else []), 'definedness')
